@@ -148,6 +148,10 @@ def hist_configs(tier) -> list[dict]:
     out += [dict(c, elemType="QUAD4", restore=True) for c in deviations(factors, 1 if tier == "quick" else None)]
     # ... or by a look at the FIRST stored iteration and a return to the last one (what every exporter loop does)
     out += [dict(c, elemType="QUAD4", restore="peek") for c in deviations(factors, 1 if tier == "quick" else None)]
+    # ... or by the re-assignment of a parameter of the phase-field model to the value it already has (a notification without a change)
+    out += [dict(c, elemType="QUAD4", restore="touch") for c in deviations(factors, 1 if tier == "quick" else None)]
+    # ... or by Save + Load_Simu, the run being continued on the loaded object (a restart from disk)
+    out += [dict(c, elemType="QUAD4", restore="saveload") for c in deviations(factors, 1 if tier == "quick" else None)]
     return out
 
 
@@ -798,7 +802,33 @@ def ref_psiP_hist(split, e):
     raise KeyError(split)
 
 
+def _save_load(simu, tmpdirs):
+    import contextlib
+    import io
+    import tempfile
+
+    from EasyFEA.Simulations import Load_Simu
+
+    # (the loaded object reads its meshes from the folder when they are first needed: the folder lives as long as the run)
+    tmp = tempfile.mkdtemp(prefix="c17_")
+    tmpdirs.append(tmp)
+    with contextlib.redirect_stdout(io.StringIO()):
+        simu.Save(tmp)
+        return Load_Simu(tmp)
+
+
 def run_sequence(case, seq):
+    import shutil
+
+    tmpdirs = []
+    try:
+        return _run_sequence(case, seq, tmpdirs)
+    finally:
+        for t in tmpdirs:
+            shutil.rmtree(t, ignore_errors=True)
+
+
+def _run_sequence(case, seq, tmpdirs):
     """replays one letter sequence on a fresh simulation; returns (violations, observables, transitions, nontrivial)."""
     from EasyFEA.FEM import MatrixType
 
@@ -830,6 +860,13 @@ def run_sequence(case, seq):
         if case.get("restore") == "peek":
             simu.Set_Iter(0)
             simu.Set_Iter(-1)
+        elif case.get("restore") == "touch":
+            pfm = simu.phaseFieldModel
+            pfm.Gc = pfm.Gc
+            pfm.l0 = pfm.l0
+        elif case.get("restore") == "saveload":
+            simu = _save_load(simu, tmpdirs)
+            groups = list(simu.mesh.Get_list_groupElem())
         elif case.get("restore"):
             simu.Set_Iter(-1)
         d_saved = np.array(simu.Get_results(-1)["damage"], dtype=float)
